@@ -59,9 +59,15 @@ def work(pg):
                     hit = False
                     for fp in ref3:
                         m = ppsuite.joint_model(fp.pc + [_model_constraint(mm['model'])])
-                        if m is not None and fp.value[0] == 'ok' and nat.get('ok') and \
-                                ppsuite.ref_tokens(fp.value[1]) == ppsuite.tokens_of(nat['text']):
+                        if m is None:
+                            continue
+                        if fp.value[0] == 'ok' and nat.get('ok') and ppsuite.ref_tokens(fp.value[1]) == ppsuite.tokens_of(nat['text']):
                             hit = True
+                        elif fp.value[0] == 'err' and not nat.get('ok') and nat.get('error'):
+                            # the emulating reference fails like the real code (same innermost variant and name)
+                            core, _d = ppsuite.err_core(nat['error'])
+                            if core.get('variant') == fp.value[1] and (fp.value[2] is None or core.get('name') in (None, fp.value[2])):
+                                hit = True
                     if hit:
                         role = qrole
                         break
